@@ -177,12 +177,124 @@ def run(ctx):
             _run(ctx, probe, exe)
         finally:
             probe.close()
+        if not enough(ctx):
+            run_arm(ctx, d)
+
+
+# ---------------------------------------------------------------- the __arm__ configuration
+
+K3 = None
+
+
+def k3_case():
+    """K-C14-3: 100 byte message, 50 bytes pending, next chunk 500 bytes (50 + 500 > FRAGMENT_BUF_SIZE)."""
+    p = b"\xaa\x55"
+    m100, m28 = conn.message(p, 1, b"\x07" * 92), conn.message(p, 1, b"\x07" * 20)
+    s = m100 + m28 * 16 + m28[:2]
+    return {"arm": True, "largest": 512, "preamble": p, "chunks": [s[:50], s[50:]], "expected": [m100] + [m28] * 16,
+            "finding_key": "arm:chunk-exceeds-buffer"}
+
+
+def arm_exec(ctx, probe, p, largest, chunks):
+    """(model outcome or None, real outcome) for one vector of the __arm__ build."""
+    probe.ask("L %d" % largest)
+    r = conn.parse_arm(probe.ask("M %s %s" % (p.hex(), " ".join(conn.hx(c) for c in chunks)))[0])
+    m = conn.model_arm(ctx.km.call("conn_feed_arm", p, str(largest).encode(), chunks)) if ctx.km is not None else None
+    return m, r
+
+
+def arm_replay(probe, data):
+    probe.ask("L %d" % data.get("largest", 512))
+    r = conn.parse_arm(probe.ask("M %s %s" % (data["preamble"].hex(), " ".join(conn.hx(c) for c in data["chunks"])))[0])
+    if r[0] == "crash":
+        return False
+    exp = data.get("expected")
+    return True if exp is None else (r[5] == exp)
+
+
+def run_arm(ctx, d):
+    rng = ctx.rng
+    exe, out = conn.compile_probe_arm(d)
+    if exe is None:
+        ctx.tie_broken("the probe does not compile against the __arm__ branch (-D__arm__ -include harness/stubs/arm_prelude.h)", out[-2000:])
+        return
+    probe = conn.Probe(exe)
+    try:
+        cap = int(ctx.km.call("conn_arm_cap")) if ctx.km is not None else 512
+        for path in sorted(glob.glob(os.path.join(VERIF, "corpus", "C14", "arm-*.json"))):
+            data = unjson(json.load(open(path)))
+            ctx.case(("corpus", path))
+            if not arm_replay(probe, data):
+                ctx.violation("corpus case %s fails" % os.path.basename(path), data)
+        n = ctx.budget(2500, 40000)
+        for i in range(n):
+            if enough(ctx):
+                break
+            p = conn.random_preamble(rng)
+            largest = rng.choice([512, 512, 256, 256, 64, 40, 16, 8, 5, 0, 513, 1000, 65535, 65536 + 20])
+            eff = min(largest % 65536, cap)
+            k = rng.random()
+            if k < 0.4 and eff >= 8:
+                # the domain of C14_reassembly_arm: messages <= largest, chunks <= cap - largest + 1
+                items, tail = conn.arm_stream(rng, p, eff, fitting=True)
+                s = conn.stream_of(items, tail)
+                chunks = conn.chunking_within(rng, s, cap - eff + 1)
+                kind, msgs = "arm_domain", [m for _f, m in items]
+            elif k < 0.65:
+                items, tail = conn.arm_stream(rng, p, eff, fitting=False)
+                s = conn.stream_of(items, tail)
+                chunks = conn.random_chunking(rng, s) if rng.random() < 0.5 else conn.coarse_chunking(rng, s, maxcuts=5)
+                kind, msgs = "arm_wellformed_any_size", [m for _f, m in items]
+            else:
+                s = conn.malformed_stream(rng, p, maxlen=rng.choice([60, 700, 1500]))
+                chunks = conn.random_chunking(rng, s) if rng.random() < 0.6 else conn.coarse_chunking(rng, s, maxcuts=4)
+                kind, msgs = "arm_malformed", None
+            m, r = arm_exec(ctx, probe, p, largest, chunks)
+            ctx.case(("arm", p, largest, tuple(chunks)), nontrivial=bool(s))
+            ctx.count(kind)
+            if r[0] == "crash":
+                ctx.violation("__arm__ build: sanitizer report / crash of the real code (%s)" % kind,
+                              {"arm": True, "largest": largest, "preamble": p, "chunks": chunks, "expected": None,
+                               "detail": r[6][:600], "finding_key": "arm:memory-error"})
+                continue
+            if m is not None:
+                if m[0] != "ok" and len(ctx.broken) < MAX_REPORTS:
+                    ctx.tie_broken("extracted __arm__ model ends with %r although C14_safe_arm is proved" % m[0],
+                                   {"preamble": p.hex(), "largest": largest, "chunks": [c.hex() for c in chunks]})
+                elif m != r[:6] and len(ctx.broken) < MAX_REPORTS:
+                    ctx.tie_broken("correspondence IConnection (__arm__) vs ConnArm.feed_arm (%s)" % kind,
+                                   {"preamble": p.hex(), "largest": largest, "chunks": [c.hex() for c in chunks],
+                                    "model": repr((m[0], m[2:5], [len(x) for x in m[5]])), "code": repr((r[0], r[2:5], [len(x) for x in r[5]])),
+                                    "array_equal": m[1] == r[1]})
+                if m[3]:
+                    ctx.count("arm_exceed_flag_set_at_end")
+            if kind == "arm_domain":
+                if ctx.km is not None and i % 20 == 0 and ctx.km.call("conn_arm_fits", str(largest).encode(), msgs, chunks) != b"1":
+                    ctx.tie_broken("generator produced a stream outside the domain of C14_reassembly_arm", {"largest": largest})
+                if r[5] != msgs or r[2] != 0 or r[3] or r[4] != 0:
+                    ctx.violation("__arm__ build: deliveries differ from the messages of a stream within the bounds of C14_reassembly_arm",
+                                  {"arm": True, "largest": largest, "preamble": p, "chunks": chunks, "expected": msgs,
+                                   "observed_lengths": [len(x) for x in r[5]], "finding_key": "arm:reassembly"})
+            if i < 1:
+                ctx.sample({"arm": True, "largest": largest, "preamble": p.hex(), "chunks": [c.hex()[:40] for c in chunks][:6], "delivered": len(r[5])})
+        # K-C14-3: the chunk bound is forced
+        k3 = k3_case()
+        ctx.case(("arm-k3",))
+        if not arm_replay(probe, k3):
+            ctx.count("arm_chunk_bound_case_loses_a_message")
+            ctx.violation("__arm__ build: a chunk that exceeds the fragment buffer together with the pending bytes loses the pending message", k3)
+        else:
+            ctx.count("arm_chunk_bound_case_delivered")
+    finally:
+        probe.close()
 
 
 def _run(ctx, probe, exe):
     rng = ctx.rng
     # 1 corpus
     for path in sorted(glob.glob(os.path.join(VERIF, "corpus", "C14", "*.json"))):
+        if os.path.basename(path).startswith("arm-"):
+            continue          # replayed by run_arm against the __arm__ build
         data = unjson(json.load(open(path)))
         ctx.case(("corpus", path))
         if not _replay(probe, exe, data):
@@ -375,6 +487,17 @@ def replay(ctx, data):
     if data.get("no_failing_input_found"):
         print(json.dumps(data.get("no_longer_checks"), indent=1)[:3000])
         return False
+    if data.get("arm"):
+        with kj.scratch() as d:
+            exe, out = conn.compile_probe_arm(d)
+            if exe is None:
+                print(out[-2000:])
+                return False
+            probe = conn.Probe(exe)
+            try:
+                return arm_replay(probe, data)
+            finally:
+                probe.close()
     with kj.scratch() as d:
         exe, out = conn.compile_probe(d)
         if exe is None:
